@@ -26,7 +26,7 @@ def valid_grid(ctx):
     """accepted parameter sets on and around the documented boundaries"""
     quick = ctx.tier == "quick"
     out = []
-    gammas = [0.0, 2.0 ** -20, 0.5, 1 - 2.0 ** -20, 1.0]
+    gammas = [0.0, 2.0 ** -20, 0.5, 0.9, 0.99, 1 - 2.0 ** -20, 1.0]   # 0.9 / 0.99 / 1-2^-20 are not float32 numbers
     epss = [1e-12, 1e-6, 1e-3, 0.5, 5.0, 50.0, 500.0, 1e6]
     for solver in SOLVERS:
         for g in (gammas if solver != "rvi" else [1.0]):
@@ -135,14 +135,21 @@ def run(ctx, build):
                               "input": {"solver": solver, "config": cfg, "route": route, "order": order, "problem": mt[6]}})
                 continue
             n_ok += 1
+            if r.get("gamma_used") is not None and float.fromhex(r["gamma_used"]) != float(cfg["gamma"]):
+                viols.append({"key": f"gamma-rounded:{order}", "what": f"double precision requested but the discount factor used is {float.fromhex(r['gamma_used'])!r} instead of {cfg['gamma']!r} "
+                              f"({r.get('gamma_dtype')}; {order.replace('_', ' ')}, {route} route)",
+                              "input": {"solver": solver, "config": cfg, "route": route, "order": order, "problem": mt[6]}})
             if r.get("dtype") != "float64":
                 viols.append({"key": f"float32:{order}", "what": f"double precision requested (default) but values are {r.get('dtype')} when the {order.replace('_', ' ')} ({route} route)",
                               "input": {"solver": solver, "config": cfg, "route": route, "order": order, "problem": mt[6]}})
             sig = (r["iteration"], r["policy"])
             vals = [float(F(x)) for x in r["values"]]
+            if order == "solver_first" and mt[6] == "forest" and base is not None and base[2] == "kwargs" and r["values"] != base[3]:
+                viols.append({"key": f"order-differs:{solver}:{sorted(cfg.items())}", "what": "same parameters, same route: values differ between the two construction orders on a problem whose tables are exact in single and double precision",
+                              "input": {"solver": solver, "config": cfg, "route": route, "order": order, "problem": mt[6]}})
             if order == "problem_first":
                 if base is None:
-                    base = (sig, vals, route)
+                    base = (sig, vals, route, r["values"])
                 elif sig != base[0] or any(abs(a - b) > 1e-5 * max(1.0, abs(a)) for a, b in zip(vals, base[1])):
                     viols.append({"key": f"routes-differ:{solver}:{sorted(cfg.items())}", "what": f"routes {base[2]} and {route} give different results for the same parameters",
                                   "input": {"solver": solver, "config": cfg, "problem": mt[6]}})
